@@ -4,6 +4,8 @@
 mod common;
 mod hc;
 mod c06;
+mod c15;
+mod zeep;
 
 use common::Tier;
 
@@ -32,6 +34,7 @@ fn usage() -> ! {
 fn run(id: &str, tier: Tier) -> i32 {
     match id {
         "C06" => c06::run(tier),
+        "C15" => c15::run(tier),
         _ => {
             eprintln!("unknown property {id}");
             2
@@ -44,6 +47,7 @@ fn replay(file: &str) -> i32 {
     let v: serde_json::Value = serde_json::from_str(&text).expect("replay file is JSON");
     match v["property"].as_str().unwrap_or("") {
         "C06" => c06::replay(&v["case"]),
+        "C15" => c15::replay(&v["case"]),
         p => {
             eprintln!("no replay for property {p}");
             2
